@@ -446,3 +446,58 @@ func H_C03_missing_among_extras() {
 		vRunUrl("C03 Url(missing key, extra keys)", "h?trace="+w+"&utm=1&x=2", []string{"trace", "utm", "x"}, []string{w, "1", "2"}, rm)
 	}
 }
+
+// rule maps built with a chain of Set calls: required stays in force when later calls add rules whose
+// names are prefixes of "required" (r, re, req) or repeat it; the reference reads a rule map written as a literal
+type vC03Chain struct {
+	K string
+	J string
+}
+
+func H_C03_set_chain() {
+	SetCustomerValidFn("req", vURule("req"))
+	SetCustomerValidFn("r", vURule("r"))
+	known := map[string]bool{"req": true, "r": true, "r1": true}
+	SetCustomerValidFn("r1", vURule("r1"))
+	var real, lit RM
+	switch vndChoice("chain", 4) {
+	case 0:
+		real = NewRule().Set("K,J", "required").Set("K", "req")
+		lit = RM{"K": "required,req", "J": "required"}
+	case 1:
+		real = NewRule().Set("K", "required|need K", "r1").Set("K", "r")
+		lit = RM{"K": "required|need K,r1,r"}
+	case 2:
+		real = NewRule().Set("K", "r1").Set("K,J", "required").Set("J", "required")
+		lit = RM{"K": "r1,required", "J": "required,required"}
+	case 3:
+		real = NewRule().Set("J", "req", "required").Set("J", "r", "req")
+		lit = RM{"J": "req,required,r,req"}
+	}
+	k, j := vStr("k"), vStr("j")
+	vULog = nil
+	r := vNewRef()
+	r.global = known
+	var err error
+	switch vndChoice("entry", 3) {
+	case 0:
+		o := &vC03Chain{K: k, J: j}
+		err = Struct(o, real)
+		r.unscoped = lit
+		r.top(o)
+	case 1:
+		m := map[string]string{"K": k, "J": j}
+		err = Map(m, real)
+		r.perObj = true
+		vRefMap(r, m, lit)
+		vCheckUnordered("C03 Set chain through Map", err, r)
+		vReach("end")
+		return
+	case 2:
+		kk, jj := vPlainText("uk", 1), vPlainText("uj", 1)
+		err = Url("h?K="+kk+"&J="+jj, real)
+		vRefUrl(r, []string{"K", "J"}, []string{kk, jj}, lit)
+	}
+	vCheckAgainstRef("C03 Set chain", err, r)
+	vReach("end")
+}
